@@ -260,10 +260,11 @@ class Runner():
         """finish running tasks"""
         # flush update dependencies
         self.dep_manager.close()
-        self.teardown()
-
-        # report final results
-        self.reporter.complete_run()
+        try:
+            self.teardown()
+        finally:
+            # report final results (reporters might also restore streams)
+            self.reporter.complete_run()
         return self.final_result
 
 
